@@ -164,6 +164,9 @@ class ModuleAnalysis:
                 names = [v.args[1]]
             if any(self.is_user_callable(f, n.id) for n in names):
                 f.aliases[node.targets[0].id] = True
+            if isinstance(v, ast.Call) and getattr(v.func, "id", None) == "next":
+                # an item taken from an iterator of user-supplied things (sources, source FACTORIES): calling it is calling user code
+                f.aliases[node.targets[0].id] = True
         if isinstance(node, ast.AnnAssign) and isinstance(node.target, ast.Name) and node.value is not None:
             v = node.value
             names = [v] if isinstance(v, ast.Name) else ([x for x in v.values if isinstance(x, ast.Name)] if isinstance(v, ast.BoolOp) else [])
@@ -254,7 +257,12 @@ def handler_delivers(try_node):
     """the guard's catch-all handler hands the exception to an on_error (or re-raises / returns a throw)"""
     for h in try_node.handlers:
         if not catches_all(h):
-            continue
+            # a more specific clause in front of the catch-all: an exception of that class raised BY THE USER CALLBACK lands
+            # there too, so it has to deliver as well (classes that are not Exceptions - cancellation, interpreter exit - excepted)
+            t = h.type
+            names = [getattr(e, "id", getattr(e, "attr", None)) for e in t.elts] if isinstance(t, ast.Tuple) else [getattr(t, "id", getattr(t, "attr", None))]
+            if all(n in ("CancelledError", "KeyboardInterrupt", "SystemExit", "GeneratorExit") for n in names):
+                continue
         ok = False
         for n in ast.walk(h):
             if isinstance(n, ast.Call) and isinstance(n.func, ast.Attribute) and n.func.attr in ("on_error", "fail"):
